@@ -25,7 +25,7 @@ let split_on (sep : string) (l : string list) : string list list =
     | x :: r -> go (x :: cur) acc r in
   List.filter (fun x -> x <> []) (go [] [] l)
 
-let kind_of = function "sock" -> KSock | "piper" -> KPipeR | "pipew" -> KPipeW | "reg" -> KReg | "lsn" -> KLsn | k -> failwith ("kind " ^ k)
+let kind_of = function "sock" -> KSock | "piper" -> KPipeR | "pipew" -> KPipeW | "reg" -> KReg | "lsn" -> KLsn | "pkt" -> KPkt | k -> failwith ("kind " ^ k)
 
 (* batch=o1:16,t0:1,w:1 *)
 let parse_batch (b : string) : ((z * z) * z) list =
